@@ -263,6 +263,7 @@ func TestWorker(t *testing.T) {
 			}
 		}
 	}()
+	minimiseTick = func() { beat.Add(1) }
 	zone := envInt("VSIM_ZONE", w)
 	runOne := func(spec CaseSpec) {
 		spec.Zone = zone
